@@ -19,7 +19,7 @@ import (
 func init() {
 	Registry["C06"] = &Check{
 		Scenarios: c06Scenarios,
-		Rule: "histories: a retained first message M1 (one per slice-backed representation: Address IPv4 / IPv6 / other family, undefined AVP, IPv4, IPv6, OctetString, UTF8String, a grouped AVP containing each, nested groups) followed by every sequence of <=3 further reads drawn from {same size with other content, larger but pooled, larger than the 1 KiB pooled buffer} x {same reader, another reader}; the pool shim reuses buffers deterministically (LIFO), so nothing depends on sync.Pool's luck. schedules: two connections served by the real reader loops, a handler that retains the first message of connection A, a concurrent writer; Pool.Get is an explored choice (any pooled buffer, or a fresh one); every schedule up to preemption bound 2 (thorough: unbounded). Oracle: Serialize() bytes and String() of M1 taken when the reader returned it equal those taken at quiescence.",
+		Rule: "histories: a retained first message M1 (one per slice-backed representation: Address IPv4 / IPv6 / other family, undefined AVP, IPv4, IPv6, OctetString, UTF8String, a grouped AVP containing each, nested groups; and one AVP of every declared type carrying payloads of 15 unexpected lengths / shapes, i.e. the lenient decode paths) followed by every sequence of <=3 further reads drawn from {same size with other content, larger but pooled, larger than the 1 KiB pooled buffer} x {same reader, another reader}; the pool shim reuses buffers deterministically (LIFO), so nothing depends on sync.Pool's luck. schedules: two connections served by the real reader loops, a handler that retains the first message of connection A, a concurrent writer; Pool.Get is an explored choice (any pooled buffer, or a fresh one); every schedule up to preemption bound 2 (thorough: unbounded). Oracle: Serialize() bytes and String() of M1 taken when the reader returned it equal those taken at quiescence.",
 		Assume: []string{"data-race freedom between visible operations (audited separately with -race)", "sync.Pool is modelled as: Get returns any previously Put object or allocates"},
 		QuickBudget: 100, ThoroughBudget: 1500,
 	}
@@ -82,6 +82,41 @@ func c06Firsts() (names []string, wires [][]byte) {
 	names = append(names, "all-top-level")
 	wires = append(wires, refcodec.EncodeMessage(hdr, all))
 	return
+}
+
+// c06OddFirsts: one AVP of every declared type carrying payloads of unexpected lengths (the
+// lenient decode paths), including the IPv4-mapped 16-byte and family-prefixed shapes.
+func c06OddFirsts() (names []string, wires [][]byte) {
+	c06Setup()
+	hdr := refcodec.Header{Version: 1, Flags: 0x80, Code: 777, App: 0, HbH: 1, E2E: 1}
+	mapped := []byte{0, 0, 0, 0, 0, 0, 0, 0, 0, 0, 0xff, 0xff, 10, 1, 2, 3}
+	for k := atoms.Kind(0); k < atoms.NKinds; k++ {
+		d, ok := c06Alpha.Plain[k]
+		if !ok || k == atoms.KGroup {
+			continue
+		}
+		var payloads [][]byte
+		for _, l := range []int{0, 1, 3, 4, 5, 6, 8, 12, 16, 18, 20} {
+			p := make([]byte, l)
+			for i := range p {
+				p[i] = byte(0x21 + i)
+			}
+			payloads = append(payloads, p)
+		}
+		payloads = append(payloads, mapped, append([]byte{0, 2}, mapped...), append([]byte{0, 1}, 10, 1, 2, 3), append([]byte{0, 1}, mapped...))
+		for _, p := range payloads {
+			names = append(names, fmt.Sprintf("odd/%s/len%d:%x", k, len(p), p[:min(len(p), 4)]))
+			wires = append(wires, refcodec.EncodeMessage(hdr, []refcodec.Node{{Code: d.Code, Flags: 0x40, Payload: p}}))
+		}
+	}
+	return
+}
+
+func min(a, b int) int {
+	if a < b {
+		return a
+	}
+	return b
 }
 
 // c06Follow builds a follow-up message: kind 0 same size as ref, 1 larger pooled, 2 unpooled.
@@ -160,9 +195,18 @@ func c06Histories(r *SeqResult, thorough bool) {
 		}
 	}
 	rec(nil)
+	oddNames, oddWires := c06OddFirsts()
+	nReg := len(names)
+	names = append(names, oddNames...)
+	wires = append(wires, oddWires...)
+	shortSeqs := [][]step{{{0, 0}}, {{0, 1}}, {{1, 0}}, {{0, 0}, {0, 1}}}
 	for i, name := range names {
 		w := wires[i]
-		for _, sq := range seqs {
+		use := seqs
+		if i >= nReg {
+			use = shortSeqs
+		}
+		for _, sq := range use {
 			sq := sq
 			var viol string
 			s := vs.Run(nil, false, 0, false, func() {
@@ -175,6 +219,9 @@ func c06Histories(r *SeqResult, thorough bool) {
 				rd := [2]*bytes.Reader{bytes.NewReader(streams[0]), bytes.NewReader(streams[1])}
 				m1, err := diam.ReadMessage(rd[0], c06Dict.P)
 				if err != nil {
+					if i >= nReg {
+						return // an odd payload the decoder rejects is never retained
+					}
 					viol = "first message unreadable: " + err.Error()
 					return
 				}
@@ -183,7 +230,7 @@ func c06Histories(r *SeqResult, thorough bool) {
 					viol = e
 					return
 				}
-				if !bytes.Equal(snap.wire, w) {
+				if i < nReg && !bytes.Equal(snap.wire, w) {
 					viol = "first message does not re-serialise to its wire image"
 					return
 				}
